@@ -315,3 +315,215 @@ theorem mem_chainSeq : ∀ (fs : List (Inst → List Inst)) (h : List Inst) (y :
     · rintro ⟨x, hx, z, hz, hr⟩; exact ⟨z, ⟨x, hx, hz⟩, hr⟩
 
 end Pyx.Query
+
+/-! ### extension: de-duplication between steps, key resolution, two-hop navigation, subtypes -/
+namespace Pyx.Query
+open Pyx.Meta
+
+theorem flatMap_filter_ne {β : Type} (g : Nat → List β) (a : Nat) (ha : g a = []) : ∀ (l : List Nat),
+    (l.filter (fun y => y != a)).flatMap g = l.flatMap g
+  | [] => rfl
+  | x :: l => by
+    by_cases hx : x = a
+    · subst hx
+      simp only [List.filter_cons, bne_self_eq_false, Bool.false_eq_true, ↓reduceIte, List.flatMap_cons, ha,
+        List.nil_append]
+      exact flatMap_filter_ne g x ha l
+    · have : (x != a) = true := by simpa using hx
+      simp only [List.filter_cons, this, ↓reduceIte, List.flatMap_cons, flatMap_filter_ne g a ha l]
+
+/-- navigating from a handle with duplicates gives, after the final de-duplication, the same result as
+    navigating from the de-duplicated handle -/
+theorem dedup_flatMap : ∀ (l : List Nat) (f : Nat → List Nat),
+    dedupFirst ((dedupFirst l).flatMap f) = dedupFirst (l.flatMap f)
+  | [], _ => rfl
+  | a :: l, f => by
+    show dedupFirst ((a :: (OSet.dedupFirst l).filter (fun y => y != a)).flatMap f) = _
+    simp only [List.flatMap_cons]
+    rw [dedupFirst_append, dedupFirst_append]
+    congr 1
+    rw [← dedupFirst_filter (fun x => !(decide (x ∈ f a))), ← dedupFirst_filter (fun x => !(decide (x ∈ f a))),
+      List.filter_flatMap, List.filter_flatMap]
+    have hg : (fun x => (f x).filter (fun z => !(decide (z ∈ f a)))) a = [] := by
+      apply List.filter_eq_nil_iff.mpr
+      intro z hz; simp [hz]
+    rw [flatMap_filter_ne _ a hg]
+    exact dedup_flatMap l _
+
+theorem dedupFirst_idem (l : List Nat) : dedupFirst (dedupFirst l) = dedupFirst l :=
+  dedupFirst_of_nodup (nodup_dedupFirst' l)
+
+theorem dedup_chainSeq : ∀ (fs : List (Inst → List Inst)) (h : List Inst),
+    dedupFirst (chainSeq fs (dedupFirst h)) = dedupFirst (chainSeq fs h)
+  | [], h => dedupFirst_idem h
+  | f :: fs, h => by
+    simp only [chainSeq]
+    rw [← dedup_chainSeq fs ((dedupFirst h).flatMap f), dedup_flatMap, dedup_chainSeq fs (h.flatMap f)]
+
+/-- the chain with a de-duplication after EVERY step (what a chain of `QuerySet`s would compute) -/
+def chainSeqDedup : List (Inst → List Inst) → List Inst → List Inst
+  | [], h => dedupFirst h
+  | f :: fs, h => chainSeqDedup fs (dedupFirst (h.flatMap f))
+
+theorem chainSeqDedup_eq : ∀ (fs : List (Inst → List Inst)) (h : List Inst),
+    chainSeqDedup fs h = dedupFirst (chainSeq fs h)
+  | [], _ => rfl
+  | f :: fs, h => by
+    simp only [chainSeqDedup, chainSeq]
+    rw [chainSeqDedup_eq fs, dedup_chainSeq]
+
+/-! #### the links dict -/
+
+theorem sameKey_comm (e f : LinkEntry) : sameKey e f = sameKey f e := by
+  unfold sameKey
+  rw [BEq.comm (a := e.toKind), BEq.comm (a := e.rel), BEq.comm (a := e.phrase)]
+
+theorem sameKey_refl (e : LinkEntry) : sameKey e e = true := by simp [sameKey]
+
+/-- the link keys `(toKind, rel, phrase)` are pairwise distinct -/
+def KeysDistinct (es : List LinkEntry) : Prop := es.Pairwise (fun e f => sameKey e f = false)
+
+theorem foldl_dictInsert_distinct : ∀ (es acc : List LinkEntry), KeysDistinct (acc ++ es) →
+    es.foldl dictInsert acc = acc ++ es
+  | [], acc, _ => by simp
+  | e :: es, acc, h => by
+    have hany : acc.any (sameKey e) = false := by
+      apply Bool.eq_false_iff.mpr
+      intro ht
+      obtain ⟨f, hf, hs⟩ := List.any_eq_true.mp ht
+      have hp := List.pairwise_append.mp h
+      have := hp.2.2 f hf e (by simp)
+      rw [sameKey_comm] at this
+      rw [this] at hs; cases hs
+    have hstep : dictInsert acc e = acc ++ [e] := by simp [dictInsert, hany]
+    simp only [List.foldl_cons, hstep]
+    rw [foldl_dictInsert_distinct es (acc ++ [e]) (by simpa using h)]
+    simp
+
+theorem lookupKey_of_mem : ∀ (es : List LinkEntry) (e : LinkEntry), KeysDistinct es → e ∈ es →
+    lookupKey es e.toKind e.rel e.phrase = some e
+  | [], _, _, h => by simp at h
+  | f :: r, e, hd, hm => by
+    have hp := List.pairwise_cons.mp hd
+    unfold lookupKey
+    rcases List.mem_cons.mp hm with rfl | hm
+    · simp
+    · have hfe : sameKey f e = false := hp.1 e hm
+      have : (f.toKind == e.toKind && f.rel == e.rel && f.phrase == e.phrase) = false := hfe
+      rw [List.find?_cons, this]
+      exact lookupKey_of_mem r e hp.2 hm
+
+theorem mem_linkEntriesFrom (k : Kind) : ∀ (sch : Schema) (j i : Nat) (a : AssocSpec), sch[i]? = some a →
+    (a.tgtKind = k → ({ toKind := a.srcKind, rel := a.rel, phrase := a.tgtPhrase, assoc := j + i, isSrc := true } : LinkEntry)
+        ∈ linkEntriesFrom k j sch) ∧
+    (a.srcKind = k → ({ toKind := a.tgtKind, rel := a.rel, phrase := a.srcPhrase, assoc := j + i, isSrc := false } : LinkEntry)
+        ∈ linkEntriesFrom k j sch)
+  | [], _, _, _, h => by simp at h
+  | b :: rest, j, 0, a, h => by
+    simp only [List.getElem?_cons_zero, Option.some.injEq] at h
+    subst h
+    constructor <;> intro hk <;> simp [linkEntriesFrom, hk]
+  | b :: rest, j, i + 1, a, h => by
+    simp only [List.getElem?_cons_succ] at h
+    obtain ⟨h1, h2⟩ := mem_linkEntriesFrom k rest (j + 1) i a h
+    have e : j + 1 + i = j + (i + 1) := by omega
+    rw [e] at h1 h2
+    constructor <;> intro hk
+    · simp only [linkEntriesFrom, List.mem_append]; exact Or.inr (h1 hk)
+    · simp only [linkEntriesFrom, List.mem_append]; exact Or.inr (h2 hk)
+
+theorem linkDict_distinct (sch : Schema) (k : Kind) (hd : KeysDistinct (linkEntriesFrom k 0 sch)) :
+    linkDict sch k = linkEntriesFrom k 0 sch := by
+  unfold linkDict
+  rw [foldl_dictInsert_distinct _ [] (by simpa using hd)]; simp
+
+/-! #### `navigate` -/
+
+/-- the probe `_find_assoc_links` makes on one link of the class -/
+def assocHop (sch : Schema) (toKind : Kind) (rel phrase : String) (l1 : LinkEntry) : Option (LinkEntry × LinkEntry) :=
+  if l1.rel == rel && l1.phrase == phrase then
+    (lookupKey (linkDict sch l1.toKind) toKind rel phrase).map (fun l2 => (l1, l2))
+  else none
+
+theorem navigate_direct' (sch : Schema) (s : State) (x : Inst) (toKind : Kind) (rel phrase : String) (e : LinkEntry)
+    (h : lookupKey (linkDict sch (s.kindOf x)) toKind rel phrase = some e) :
+    navigate sch s x toKind rel phrase = some (followEntry s e x) := by
+  unfold navigate
+  simp only [h]
+
+theorem navigate_indirect (sch : Schema) (s : State) (x : Inst) (toKind : Kind) (rel phrase : String)
+    (h : lookupKey (linkDict sch (s.kindOf x)) toKind rel phrase = none) :
+    navigate sch s x toKind rel phrase =
+      match (linkDict sch (s.kindOf x)).findSome? (assocHop sch toKind rel phrase) with
+      | some (l1, l2) => some (unionAll ((followEntry s l1 x).map (followEntry s l2)))
+      | none => none := by
+  unfold navigate
+  simp only [h]
+  rfl
+
+theorem assocHop_some {sch : Schema} {toKind : Kind} {rel phrase : String} {l l1 l2 : LinkEntry}
+    (h : assocHop sch toKind rel phrase l = some (l1, l2)) :
+    l1 = l ∧ l1.rel = rel ∧ l1.phrase = phrase ∧ lookupKey (linkDict sch l1.toKind) toKind rel phrase = some l2 := by
+  unfold assocHop at h
+  split at h
+  · rename_i hc
+    simp only [Bool.and_eq_true, beq_iff_eq] at hc
+    cases hl : lookupKey (linkDict sch l.toKind) toKind rel phrase with
+    | none => simp [hl] at h
+    | some l2' =>
+      simp only [hl, Option.map_some, Option.some.injEq, Prod.mk.injEq] at h
+      obtain ⟨rfl, rfl⟩ := h
+      exact ⟨rfl, hc.1, hc.2, hl⟩
+  · cases h
+
+theorem unionAll_map (f : Inst → List Inst) (l : List Inst) : unionAll (l.map f) = dedupFirst (l.flatMap f) := by
+  unfold unionAll
+  rw [List.flatMap_def]
+
+/-! #### `navigate_subtype` -/
+
+theorem navSubtypeFrom_none (sch : Schema) (s : State) (x : Inst) (rel : String) : ∀ (d : List LinkEntry),
+    (∀ e ∈ d, e.rel = rel → navigate sch s x e.toKind rel "" = some []) →
+    navSubtypeFrom sch s x rel d = some none
+  | [], _ => rfl
+  | e :: r, h => by
+    unfold navSubtypeFrom
+    by_cases he : e.rel = rel
+    · simp only [he, beq_self_eq_true, ↓reduceIte]
+      have := h e (by simp) he
+      simp only [this, List.head?_nil]
+      exact navSubtypeFrom_none sch s x rel r (fun e' he' => h e' (by simp [he']))
+    · have : (e.rel == rel) = false := by simpa using he
+      simp only [this, Bool.false_eq_true, ↓reduceIte]
+      exact navSubtypeFrom_none sch s x rel r (fun e' he' => h e' (by simp [he']))
+
+theorem navSubtypeFrom_some (sch : Schema) (s : State) (x : Inst) (rel : String) (y : Inst) :
+    ∀ (d : List LinkEntry),
+    (∀ e ∈ d, e.rel = rel → ∃ l, navigate sch s x e.toKind rel "" = some l ∧ (l = [] ∨ l.head? = some y)) →
+    (∃ e ∈ d, e.rel = rel ∧ ∃ l, navigate sch s x e.toKind rel "" = some l ∧ l.head? = some y) →
+    navSubtypeFrom sch s x rel d = some (some y)
+  | [], _, h => by obtain ⟨e, he, _⟩ := h; simp at he
+  | e :: r, hall, hex => by
+    unfold navSubtypeFrom
+    by_cases he : e.rel = rel
+    · obtain ⟨l, hl, hcase⟩ := hall e (by simp) he
+      simp only [he, beq_self_eq_true, ↓reduceIte]
+      simp only [hl]
+      rcases hcase with rfl | hh
+      · simp only [List.head?_nil]
+        apply navSubtypeFrom_some sch s x rel y r (fun e' he' => hall e' (by simp [he']))
+        obtain ⟨e0, hm, hr, l0, hl0, hh0⟩ := hex
+        rcases List.mem_cons.mp hm with rfl | hm
+        · rw [hl] at hl0
+          cases hl0; simp at hh0
+        · exact ⟨e0, hm, hr, l0, hl0, hh0⟩
+      · simp only [hh]
+    · have : (e.rel == rel) = false := by simpa using he
+      simp only [this, Bool.false_eq_true, ↓reduceIte]
+      apply navSubtypeFrom_some sch s x rel y r (fun e' he' => hall e' (by simp [he']))
+      obtain ⟨e0, hm, hr, rest⟩ := hex
+      rcases List.mem_cons.mp hm with rfl | hm
+      · exact absurd hr he
+      · exact ⟨e0, hm, hr, rest⟩
+
+end Pyx.Query
